@@ -539,6 +539,7 @@ def run(ck):
     load_aliases()
     ck.coq_build(["props/C12.vo", "extract/C12_extract.vo"])
     ck.print_assumptions(["DSP.C12"], ["DSP.C12." + t for t in THEOREMS])
+    ck.source_tie("collections")
     ck.hygiene()
     ck.ocaml_build()
     ck.harness_build(["c12"])
